@@ -96,6 +96,8 @@ class FuncResult(object):
         self.ins_visited = 0
         self.assumed_indexed = 0
         self.callargs = []       # (ins, target, {argreg: value})
+        self.dead_edges = set()  # CFG edges proved infeasible by the known-bits facts
+        self.callctx = {}        # call ins addr -> context facts passed to the callee summary
         self.mindex = {}         # ins addr -> abstract value of the index register of its memory operand
         self.escapes = []        # (ins, value) : symbol addresses stored to memory
         self.reg_at = {}         # optional: ins addr -> regs dict (only if keep_regs)
@@ -143,6 +145,11 @@ class Interp(object):
                 regs["B:" + p] = (~c & M64, c != 0)
             if regs.get("ZFSRC") == p:
                 regs["ZFSRC"] = None
+            if "R:" + p in regs:
+                regs["R:" + p] = (v[1], v[1]) if (v[0] == "const" and v[1] < (1 << 62)) else None
+                cs = regs.get("CMPSRC")
+                if cs is not None and cs[0] == p:
+                    regs["CMPSRC"] = None
         if w >= 32:
             if w == 32 and v[0] not in ("const", "der", "top"):
                 rs = roots(v)
@@ -202,6 +209,9 @@ class Interp(object):
         for r in G64:
             init_regs["B:" + r] = NOBITS
         init_regs["ZFSRC"] = None
+        init_regs["CMPSRC"] = None
+        for r in G64:
+            init_regs["R:" + r] = None
         for r, fact in (self.entry_facts or {}).items():
             init_regs["B:" + r] = fact
         states = {f.entry: (init_regs, {})}
@@ -249,6 +259,15 @@ class Interp(object):
                     nregs["ZFSRC"] = oregs["ZFSRC"] if oregs["ZFSRC"] == regs["ZFSRC"] else None
                     if nregs["ZFSRC"] != oregs["ZFSRC"]:
                         changed = True
+                    nregs["CMPSRC"] = oregs["CMPSRC"] if oregs["CMPSRC"] == regs["CMPSRC"] else None
+                    if nregs["CMPSRC"] != oregs["CMPSRC"]:
+                        changed = True
+                    for r in G64:
+                        a_, b_ = oregs["R:" + r], regs["R:" + r]
+                        j_ = None if (a_ is None or b_ is None) else (min(a_[0], b_[0]), max(a_[1], b_[1]))
+                        if j_ != a_:
+                            changed = True
+                        nregs["R:" + r] = j_
                     nstack = {}
                     for k, v in ostack.items():
                         w = stack.get(k)
@@ -270,7 +289,11 @@ class Interp(object):
             if b not in states:
                 continue
             regs, stack = states[b]
-            self.block(f, b, dict(regs), dict(stack), res)
+            regs = dict(regs)
+            self.block(f, b, regs, dict(stack), res)
+            for s2 in f.succ.get(b, []):
+                if self.edge_refine(f, b, s2, regs) is None:
+                    res.dead_edges.add((b, s2))
         for s, (a, b2) in rsp_conflict.items():
             res.findings.append(("R19.5", "rsp-join@%s" % self.label(f, s), "inconsistent stack height at join %s: %s vs %s" % (self.label(f, s), a, b2), s))
         clob = set()
@@ -414,6 +437,10 @@ class Interp(object):
                 if regs[r] is TOP or regs[r][0] == "top":
                     regs["B:" + r] = NOBITS
             regs["ZFSRC"] = None
+            regs["CMPSRC"] = None
+            for r in G64:
+                if regs[r] is TOP or regs[r][0] == "top":
+                    regs["R:" + r] = None
             return
         if dst is not None and ob is not None:
             w32 = WIDTH[i.ops[0][1]] == 32
@@ -457,8 +484,66 @@ class Interp(object):
             elif op in ("CMP64ri8", "CMP64ri32", "CMP32ri8", "CMP32ri") and i.imm(1) == 0 and i.reg(0) in PARENT:
                 z = PARENT[i.reg(0)] if WIDTH[i.reg(0)] == 64 or (regs["B:" + PARENT[i.reg(0)]][0] & HIGH32) == HIGH32 else None
             regs["ZFSRC"] = z
+            cs = None
+            if op in ("CMP64ri8", "CMP64ri32") and i.reg(0) in PARENT and i.mem < 0:
+                cs = (PARENT[i.reg(0)], i.imm(1))
+            elif op in ("CMP32ri8", "CMP32ri") and i.reg(0) in PARENT and i.mem < 0 and (regs["B:" + PARENT[i.reg(0)]][0] & HIGH32) == HIGH32 and i.imm(1) >= 0:
+                cs = (PARENT[i.reg(0)], i.imm(1))
+            regs["CMPSRC"] = cs
+
+    def range_refine(self, f, b, s, regs):
+        """Interval facts from `cmp reg, imm; jcc`.  Returns regs (possibly refined) or None when the edge is infeasible."""
+        cs = regs.get("CMPSRC")
+        last = f.blocks[b][-1]
+        if cs is None or not last.is_cond() or len(last.ops) < 2:
+            return regs
+        r, c = cs
+        cc = last.imm(1)
+        tgt, fall = last.branch_target(), last.next
+        if tgt == fall:
+            return regs
+        taken = (s == tgt)
+        INF = 1 << 63
+        cur = regs["R:" + r] or (-INF, INF - 1)
+        lo, hi = cur
+        # signed conditions: L=12 GE=13 LE=14 G=15 ; E=4 NE=5 ; unsigned B=2 AE=3 BE=6 A=7 (only when the value is known non-negative)
+        cond = {12: "lt", 13: "ge", 14: "le", 15: "gt", 4: "eq", 5: "ne"}.get(cc)
+        if cond is None and lo >= 0 and c >= 0:
+            cond = {2: "lt", 3: "ge", 6: "le", 7: "gt"}.get(cc)
+        if cond is None:
+            return regs
+        if not taken:
+            cond = {"lt": "ge", "ge": "lt", "le": "gt", "gt": "le", "eq": "ne", "ne": "eq"}[cond]
+        if cond == "lt":
+            hi = min(hi, c - 1)
+        elif cond == "le":
+            hi = min(hi, c)
+        elif cond == "ge":
+            lo = max(lo, c)
+        elif cond == "gt":
+            lo = max(lo, c + 1)
+        elif cond == "eq":
+            lo, hi = max(lo, c), min(hi, c)
+        elif cond == "ne":
+            if lo == hi == c:
+                return None
+            if lo == c:
+                lo += 1
+            if hi == c:
+                hi -= 1
+        if lo > hi:
+            return None
+        out = dict(regs)
+        out["R:" + r] = (lo, hi) if (lo, hi) != (-INF, INF - 1) else None
+        return out
 
     def edge_refine(self, f, b, s, regs):
+        regs = self.range_refine(f, b, s, regs) if "CMPSRC" in regs else regs
+        if regs is None:
+            return None
+        return self.zf_refine(f, b, s, regs)
+
+    def zf_refine(self, f, b, s, regs):
         """State on the edge b -> s; None when the edge cannot be taken."""
         if "ZFSRC" not in regs:
             return regs
@@ -519,6 +604,8 @@ class Interp(object):
                 res.callargs.append((i, tgt, {r: regs[r] for r in ("RDI", "RSI", "RDX", "RCX", "R8", "R9")}))
             if tgt and self._ctx_ok and "B:RSI" in regs:
                 ctx = tuple((r, regs["B:" + r]) for r in ("RDI", "RSI", "RDX", "RCX", "R8", "R9", "R10") if regs["B:" + r] != NOBITS)
+                if res is not None:
+                    res.callctx[i.addr] = ctx
                 sm = self.summary_of(tgt, ctx)
             else:
                 sm = self.summary_of(tgt) if tgt else SYSV
